@@ -59,6 +59,38 @@ class CVIART(BaseART):
             CVIART.SILHOUETTE,
         ]
 
+    def validate_data(self, X: np.ndarray):
+        """Validate the data with the rules of the base module.
+
+        Parameters
+        ----------
+        X : np.ndarray
+            The dataset.
+
+        """
+        self.base_module.validate_data(X)
+
+    def check_dimensions(self, X: np.ndarray):
+        """Check the data has the dimensions the base module was fitted with.
+
+        Parameters
+        ----------
+        X : np.ndarray
+            The dataset.
+
+        """
+        self.base_module.check_dimensions(X)
+
+    def partial_fit(
+        self,
+        X: np.ndarray,
+        match_reset_func: Optional[Callable] = None,
+        match_tracking: Literal["MT+", "MT-", "MT0", "MT1", "MT~"] = "MT+",
+        epsilon: float = 0.0,
+    ):
+        """Not supported: the validity index needs the whole data set, use fit."""
+        raise NotImplementedError("CVIART can only be trained with fit")
+
     def prepare_data(self, X: np.ndarray) -> np.ndarray:
         """Prepare data for clustering.
 
